@@ -683,6 +683,7 @@ func runScenario(idx int, kind string, seed uint64, tier string) *result {
 			addFail("setup", "NewStyle: "+err.Error())
 		}
 		styleIDs[i] = id
+		beat()
 	}
 	if sc.prep != nil {
 		if err := sc.prep(f); err != nil {
@@ -738,6 +739,7 @@ func runScenario(idx int, kind string, seed uint64, tier string) *result {
 				}
 				results[t][i] = runOp(f, &sc.progs[t][i], styleIDs)
 				atomic.AddInt64(&progress, 1)
+				beat()
 			}
 		}(t)
 	}
@@ -888,6 +890,7 @@ wait:
 	res.Keys = len(keys)
 	res.KeyNames = keys
 	for _, k := range keys {
+		beat()
 		p := strings.SplitN(k, "|", 3)
 		var obs string
 		var err error
@@ -1097,6 +1100,40 @@ wait:
 	return res
 }
 
+// process-wide watchdog: a deadlock can also strike in the sequential set-up or observation
+// phase of a scenario (a mutex left locked by an earlier call); if nothing beats for 90 s the
+// results so far plus a deadlock failure for the current scenario are written and the process ends.
+var (
+	lastBeat   int64
+	curIdx     int64 = -1
+	resultsMu  sync.Mutex
+	allResults []*result
+)
+
+func beat() { atomic.StoreInt64(&lastBeat, time.Now().UnixNano()) }
+
+func watchdog(out string) {
+	for {
+		time.Sleep(time.Second)
+		if time.Duration(time.Now().UnixNano()-atomic.LoadInt64(&lastBeat)) > 90*time.Second {
+			buf := make([]byte, 1<<20)
+			n := runtime.Stack(buf, true)
+			blocked := strings.Count(string(buf[:n]), "sync.(*Mutex).Lock")
+			k := int(atomic.LoadInt64(&curIdx))
+			resultsMu.Lock()
+			allResults = append(allResults, &result{Idx: k, Name: "watchdog", Fails: []fail{{"deadlock",
+				fmt.Sprintf("scenario %d made no progress for 90 s outside the concurrent phase (%d goroutines blocked in Mutex.Lock): a mutex was left locked", k, blocked)}}})
+			b, _ := json.Marshal(allResults)
+			resultsMu.Unlock()
+			fmt.Fprintf(os.Stderr, "@@ABORT watchdog in scenario %d\n", k)
+			if out != "" {
+				_ = os.WriteFile(out, b, 0o644)
+			}
+			os.Exit(0)
+		}
+	}
+}
+
 var kinds = []string{"cells", "styles", "cols", "dviter", "pictures", "reopen", "sheetrow", "formulas", "mix"}
 
 // witness scenarios run first on every run: each hammers one pair of functions for which the
@@ -1115,10 +1152,12 @@ func main() {
 	if total == 0 {
 		total = 50
 		if *tier == "thorough" {
-			total = 700
+			total = 400
 		}
 	}
 	var results []*result
+	beat()
+	go watchdog(*out)
 	for k := 0; k < total; k++ {
 		if *only >= 0 && k != *only {
 			continue
@@ -1129,9 +1168,27 @@ func main() {
 		}
 		s := *seed*7919 + uint64(k)*104729
 		fmt.Fprintf(os.Stderr, "@@SCENARIO %d %s %d\n", k, kind, s)
+		atomic.StoreInt64(&curIdx, int64(k))
+		beat()
 		res := runScenario(k, kind, s, *tier)
+		beat()
+		resultsMu.Lock()
+		allResults = append(allResults, res)
+		resultsMu.Unlock()
 		fmt.Fprintf(os.Stderr, "@@END %d\n", k)
 		results = append(results, res)
+		dead := false
+		for _, f := range res.Fails {
+			if f.Sig == "deadlock" {
+				dead = true
+			}
+		}
+		if dead {
+			// the blocked goroutines (and the mutexes they hold) stay behind: later scenarios would
+			// only time out one by one; the deadlock itself is the result
+			fmt.Fprintf(os.Stderr, "@@ABORT after deadlock in scenario %d\n", k)
+			break
+		}
 	}
 	b, _ := json.Marshal(results)
 	if *out == "" {
